@@ -56,8 +56,46 @@ def tmax(t) -> int:
     raise ValueError(k)
 
 
-def _sumset_mod(a: frozenset, b: frozenset, d: int) -> frozenset:
+def _sumset_mod_plain(a: frozenset, b: frozenset, d: int) -> frozenset:
     return frozenset((x + y) % d for x in a for y in b)
+
+
+def _sumset_mod(a: frozenset, b: frozenset, d: int) -> frozenset:
+    """{(x + y) mod d}.  Large operands in a small group are added as bit masks (one rotation of b's mask per element of a);
+    the two formulations are compared on every pair of subsets of Z_5 and Z_6 when the module is loaded."""
+    if len(a) * len(b) <= 1024 or d > 1 << 16:
+        return _sumset_mod_plain(a, b, d)
+    if len(a) > len(b):
+        a, b = b, a
+    full = (1 << d) - 1
+    mb = 0
+    for y in b:
+        mb |= 1 << (y % d)
+    out = 0
+    for x in a:
+        s = x % d
+        out |= ((mb << s) | (mb >> (d - s))) & full
+        if out == full:
+            break
+    return frozenset(i for i in range(d) if out >> i & 1)
+
+
+def _selfcheck_sumset() -> None:
+    import itertools
+
+    global _sumset_mod
+    fast = _sumset_mod
+    for d in (5, 6):
+        subsets = [frozenset(c) for n in range(1, d + 1) for c in itertools.combinations(range(d), n)]
+        for a in subsets:
+            for b in subsets:
+                # force the mask path by lifting the operands (same residues, more elements)
+                la = frozenset(x + d * j for x in a for j in range(40))
+                lb = frozenset(y + d * j for y in b for j in range(40))
+                assert fast(la, lb, d) == _sumset_mod_plain(a, b, d), (a, b, d)
+
+
+_selfcheck_sumset()
 
 
 def _power_mod(r: frozenset, k: int, d: int) -> frozenset:
